@@ -1,6 +1,6 @@
 From Coq Require Import List Bool NArith ZArith Lia.
 From Coq Require Import Strings.Byte.
-From LLIR Require Import Gen.Enums Proofs.EnumProofs Model.FlagSets.
+From LLIR Require Import Gen.Enums Model.EnumModel Proofs.EnumProofs Model.FlagSets.
 Import ListNotations.
 Local Open Scope N_scope.
 
